@@ -14,8 +14,8 @@ import (
 type LimitM struct {
 	Kind   string `json:"kind"` // body-attrs|body-blocks|labels|funcs|object-attrs|targets|hooks
 	N      int    `json:"n"`
-	Prefix string `json:"prefix"` // typed prefix ("" or a prefix of the generated names)
-	Ext    bool   `json:"ext,omitempty"` // body kinds: count and for_each extensions enabled (two more candidates)
+	Prefix string `json:"prefix"`          // typed prefix ("" or a prefix of the generated names)
+	Ext    bool   `json:"ext,omitempty"`   // body kinds: count and for_each extensions enabled (two more candidates)
 	Hooks  int    `json:"hooks,omitempty"` // hooks+funcs, hooks+targets: number of candidates the completion hook returns
 }
 
